@@ -66,6 +66,8 @@ class Sym:
         if depth > 25:
             return [("unknown", "too deep")]
         if 1 <= local <= b.raw["arg_count"] and not M.real_defs(b, local):
+            if re.fullmatch(r"(std::|alloc::)?string::String", b.local_ty(local) or "") and not proj:
+                return [("param", local)] + self.mutations(local, depth)
             return [("param", local)]
         comp = next((int(x[1:]) for x in proj if re.match(r"^\.\d+$", x)), None)
         defs = [d for d in M.value_defs(b, local) if not b.is_cleanup(d[0])]
@@ -135,7 +137,7 @@ class Sym:
         for a in t["args"]:
             ty = (t.get("arg_tys") or [])[len(args)] if len(t.get("arg_tys") or []) > len(args) else ""
             args.append(self.op(a, depth + 1) if re.search(r"str\b|String", ty or "") else None)
-        return [("call", M.callee(t) or "?", args, None)]
+        return [("call", M.callee(t) or "?", args, None, (t.get("fn") or {}).get("args"))]
 
     # ---------------------------------------------------------------- helpers
     def array(self, o):
@@ -275,7 +277,7 @@ class Sym:
                 for k, a in enumerate(t["args"]):
                     ty = (t.get("arg_tys") or [])[k] if len(t.get("arg_tys") or []) > k else ""
                     args.append(self.op(a, depth + 1) if k not in ks and re.search(r"str\b|String", ty or "") else None)
-                out.append(("call", M.callee(t) or "?", args, ks[0]))
+                out.append(("call", M.callee(t) or "?", args, ks[0], (t.get("fn") or {}).get("args")))
         return out
 
     def returned(self):
@@ -334,3 +336,16 @@ def mentions(atom, rx):
             return True
         return any(mentions(x, rx) for v in atom[2] if v for x in v)
     return False
+
+
+def shape(atoms, named=None):
+    """format-string-like rendering: literal text with `{}` for every other piece (`named`: values of named constants)"""
+    out = ""
+    for a in atoms:
+        if a[0] == "lit":
+            out += a[1].replace("{", "{{").replace("}", "}}")
+        elif a[0] == "named" and named and named(a[1]) is not None:
+            out += named(a[1]).replace("{", "{{").replace("}", "}}")
+        else:
+            out += "{}"
+    return re.sub(r"(\{\})+", "{}", out)
